@@ -82,6 +82,7 @@ package types
 
 //@ func ValidatorSet.VerifyCommit
 //@   assigns vals.totalVotingPower
+//@   sets lastCommitVerified = ite(result == nil, ref(commit), 0) when true
 //@   ensures wf: wfCached(vals)
 //@   requires wfPowers(vals)
 //@   requires wfCached(vals)
@@ -178,3 +179,105 @@ package types
 //@   ensures fields: result != nil ==> (result.Timestamp == blockTime && result.TotalVotingPower == totalPower(valSet, len(valSet.Validators)) &&
 //@     | ((result.VoteA == vote1 && result.VoteB == vote2) || (result.VoteA == vote2 && result.VoteB == vote1)))
 //@   ensures power: result != nil ==> (idxOf(valSet, vote1.ValidatorAddress) >= 0 && result.ValidatorPower == valSet.Validators[idxOf(valSet, vote1.ValidatorAddress)].VotingPower)
+
+// ---- C06: basic validation of blocks, content hashes ----
+//@ import version github.com/tendermint/tendermint/version
+
+//@ ghost var lastBasicOK int
+//@ ghost var lastCommitVerified int
+
+// ASSUMED: the (cached) content hashes are functions of the object hashed (objects are not mutated while validated).
+//@ func Commit.Hash
+//@   trusted
+//@   purefn
+//@   assigns commit.hash
+//@ func Data.Hash
+//@   trusted
+//@   purefn
+//@   assigns data.hash
+//@ func EvidenceData.Hash
+//@   trusted
+//@   purefn
+//@   assigns data.hash
+//@ func EvidenceData.ByteSize
+//@   trusted
+//@   purefn
+//@   assigns data.byteSize
+//@ func ValidatorSet.Hash
+//@   trusted
+//@   purefn
+//@   assigns nothing
+//@ func HashConsensusParams
+//@   trusted
+//@   purefn
+//@   assigns nothing
+
+//@ func ValidateHash
+//@   assigns nothing
+//@   ensures def: result == nil <==> (len(h) == 0 || len(h) == 32)
+//@ func PartSetHeader.ValidateBasic
+//@   assigns nothing
+//@   ensures def: result == nil <==> (len(psh.Hash) == 0 || len(psh.Hash) == 32)
+//@ func BlockID.ValidateBasic
+//@   assigns nothing
+//@   ensures def: result == nil <==> ((len(blockID.Hash) == 0 || len(blockID.Hash) == 32) && (len(blockID.PartSetHeader.Hash) == 0 || len(blockID.PartSetHeader.Hash) == 32))
+//@ func CommitSig.ValidateBasic
+//@   assigns nothing
+//@   ensures flag: result == nil ==> (cs.BlockIDFlag == BlockIDFlagAbsent || cs.BlockIDFlag == BlockIDFlagCommit || cs.BlockIDFlag == BlockIDFlagNil)
+//@   ensures absent: (result == nil && cs.BlockIDFlag == BlockIDFlagAbsent) ==> (len(cs.ValidatorAddress) == 0 && len(cs.Signature) == 0)
+//@   ensures present: (result == nil && cs.BlockIDFlag != BlockIDFlagAbsent) ==> (len(cs.ValidatorAddress) == 20 && len(cs.Signature) > 0 && len(cs.Signature) <= MaxSignatureSize)
+
+//@ func Header.ValidateBasic
+//@   assigns nothing
+//@   ensures ver: result == nil ==> h.Version.Block == version.BlockProtocol
+//@   ensures height: result == nil ==> h.Height >= 1
+//@   ensures chain: result == nil ==> len(h.ChainID) <= MaxChainIDLen
+//@   ensures proposer: result == nil ==> len(h.ProposerAddress) == 20
+//@   ensures hashes: result == nil ==> ((len(h.LastCommitHash) == 0 || len(h.LastCommitHash) == 32) && (len(h.DataHash) == 0 || len(h.DataHash) == 32) &&
+//@     | (len(h.EvidenceHash) == 0 || len(h.EvidenceHash) == 32) && (len(h.ValidatorsHash) == 0 || len(h.ValidatorsHash) == 32) &&
+//@     | (len(h.NextValidatorsHash) == 0 || len(h.NextValidatorsHash) == 32) && (len(h.ConsensusHash) == 0 || len(h.ConsensusHash) == 32) &&
+//@     | (len(h.LastResultsHash) == 0 || len(h.LastResultsHash) == 32))
+
+//@ func Commit.ValidateBasic
+//@   assigns nothing
+//@   ensures nonneg: result == nil ==> (commit.Height >= 0 && commit.Round >= 0)
+//@   ensures sigs: (result == nil && commit.Height >= 1) ==> len(commit.Signatures) > 0
+//@   loop 1 invariant idx: 0 <= rangeindex + 1 && rangeindex + 1 <= len(commit.Signatures)
+
+// A block passes basic validation only if its header is well formed and its three content hashes are the hashes of
+// its last commit, its data and its evidence.
+//@ func Block.ValidateBasic
+//@   assigns b.LastCommit.hash, b.Data.hash, b.Evidence.hash
+//@   sets lastBasicOK = ite(result == nil, ref(b), 0) when true
+//@   ensures header: result == nil ==> (b.Header.Height >= 1 && b.Header.Version.Block == version.BlockProtocol && len(b.Header.ProposerAddress) == 20)
+//@   ensures commit: result == nil ==> (b.LastCommit != nil && b.LastCommit.Height >= 0 && b.LastCommit.Round >= 0 && b.Header.LastCommitHash == Commit.Hash(b.LastCommit))
+//@   ensures data: result == nil ==> b.Header.DataHash == Data.Hash(&b.Data)
+//@   ensures evidence: result == nil ==> b.Header.EvidenceHash == EvidenceData.Hash(&b.Evidence)
+//@   loop 1 invariant idx: 0 <= rangeindex + 1 && rangeindex + 1 <= len(b.Evidence.Evidence)
+
+//@ func ValidatorSet.HasAddress
+//@   assigns nothing
+//@   ensures def: result <==> old(idxOf(vals, address)) >= 0
+//@   loop 1 invariant idx: 0 <= rangeindex + 1 && rangeindex + 1 <= len(vals.Validators)
+//@   loop 1 invariant none: idxOf(vals, address) == idxFrom(vals, address, rangeindex + 1)
+
+// Size budget of a block (exact integer arithmetic, no overflow for up to MaxVotesCount validators).
+//@ func MaxCommitBytes
+//@   pure
+//@   requires cnt: 0 <= valCount && valCount <= 10000
+//@   ensures def: result == 94 + 111 * valCount
+//@   checks ovf
+//@ func MaxDataBytes
+//@   requires cnt: 0 <= valsCount && valsCount <= 10000
+//@   requires sz: 0 <= maxBytes && maxBytes <= 104857600 && 0 <= evidenceBytes && evidenceBytes <= 104857600
+//@   assigns nothing
+//@   ensures def: result == maxBytes - 11 - 626 - (94 + 111 * valsCount) - evidenceBytes
+//@   ensures nonneg: result >= 0
+//@   checks ovf
+//@ func MaxDataBytesNoEvidence
+//@   requires cnt: 0 <= valsCount && valsCount <= 10000
+//@   requires sz: 0 <= maxBytes && maxBytes <= 104857600
+//@   assigns nothing
+//@   ensures def: result == maxBytes - 11 - 626 - (94 + 111 * valsCount)
+//@   ensures nonneg: result >= 0
+//@   checks ovf
